@@ -515,7 +515,10 @@ func c11nils(c *Ctx) {
 		struct{ sum [4]byte }{[4]byte{1, 2, 0xe2, 4}}, struct{ Sum [4]tNUint8 }{}, tSNArr{[4]tNUint8{1, 2}, [4]tNUint8{3}}, map[string][2]byte{"k": {7, 8}}, []interface{}{[3]byte{1, 2, 3}, struct{ b [2]byte }{}},
 		map[unsafe.Pointer]int{unsafe.Pointer(&keyInts[0]): 1, unsafe.Pointer(&keyInts[1]): 2}, map[*int]string{&keyInts[0]: "a", &keyInts[2]: "b", nil: "n"},
 		map[chan int]int{keyChans[1]: 1, keyChans[2]: 2, nil: 0}, map[interface{}]int{unsafe.Pointer(&keyInts[0]): 1, unsafe.Pointer(&keyInts[1]): 2, keyChans[1]: 3, &keyInts[2]: 4},
-		map[[2]unsafe.Pointer]bool{{nil, unsafe.Pointer(&keyInts[0])}: true, {nil, unsafe.Pointer(&keyInts[1])}: false}}
+		map[[2]unsafe.Pointer]bool{{nil, unsafe.Pointer(&keyInts[0])}: true, {nil, unsafe.Pointer(&keyInts[1])}: false},
+		// read-only reflect.Values (taken from unexported fields) holding wrappers, redactables and nil
+		reflect.ValueOf(tSUnexp{1, "s", redact.Safe("w")}).Field(2), reflect.ValueOf(tSUnexp{1, "s", redact.Unsafe(3)}).Field(2).Elem(), reflect.ValueOf(tSUnexp{1, "s", redact.Safe(nil)}).Field(2).Elem(),
+		reflect.ValueOf(tSUnexp{1, "s", redact.RedactableString("r")}).Field(2).Elem(), reflect.ValueOf(tSUnexp{1, "s", nil}).Field(2), reflect.ValueOf(tSUnexp{1, "s", tErr{"e"}}).Field(2)}
 	var jobs [][2]int
 	for i := range ops {
 		for v := range allVerbs {
@@ -646,6 +649,6 @@ func runC11(c *Ctx) {
 	c11panics(c)
 	c11doublePanics(c)
 	c11withoutMarkers(c)
-	c.res.Bound = "rune edges: all 2048 surrogates + 18 boundary values; all 256 bytes; 5 buffer states x 4 implementations; 44 JoinTo operand types x 4 delimiters; every prefix of 40 hostile formats x 9 operand lists x 6 routes; 33 nil-ish and reflection-hostile operands x 58 verbs x 4 flag forms x 6 routes"
+	c.res.Bound = "rune edges: all 2048 surrogates + 18 boundary values; all 256 bytes; 5 buffer states x 4 implementations; 44 JoinTo operand types x 4 delimiters; every prefix of 40 hostile formats x 9 operand lists x 6 routes; 39 nil-ish and reflection-hostile operands x 58 verbs x 4 flag forms x 6 routes"
 	c.res.Assumptions = []string{"outside the claim, per the statement: Grow with a negative count, memory exhaustion; nil destinations/callbacks are programmer errors, not values to print", "a panic raised while printing a panic payload propagates, as in fmt (checked against fmt in C04)"}
 }
